@@ -22,8 +22,8 @@ ALL = [t for t, _ in TOKENS]
 
 # raw characters that would leave the component if written unescaped
 FORBID = {
-    "user": set("/?#@:[]\\"),
-    "password": set("/?#@[]\\"),
+    "user": set("/?#:[]\\"),      # a raw '@' is kept: the authority is split at its LAST '@'
+    "password": set("/?#[]\\"),
     "seg": set("/?#\\"),
     "qkey": set("#&="),
     "qval": set("#&"),
